@@ -33,13 +33,18 @@
 (* Requests carry the (leader, epoch) pair the sender believes in; the     *)
 (* controller refuses every request whose pair is not the current one.     *)
 (*                                                                         *)
-(* Code variants kept as constants (FALSE = the code as it is today):      *)
+(* Code variants kept as constants (KeepStatus, CountAll: FALSE = the code *)
+(* as it is today):                                                        *)
 (*   KeepStatus  the failover status stays in partitionFailovers after a   *)
 (*               failover attempt, its timer stopped for ever (liftbridge  *)
 (*               as shipped; defective: stale witnesses trigger the next   *)
 (*               election)                                                 *)
 (*   CountAll    every witness id counts towards the quorum, in-sync       *)
 (*               follower or not (as shipped; defective)                   *)
+(*   RecheckAtApply = FALSE  ReportLeader does not look at the (leader,    *)
+(*               epoch) pair again when it registers the witness (as       *)
+(*               shipped; defective when reports overlap, see              *)
+(*               DoReportApply); TRUE = today's code                       *)
 (* They exist to generate the counterexamples that are replayed on the     *)
 (* real code.                                                              *)
 (***************************************************************************)
@@ -49,7 +54,7 @@ CONSTANTS Replicas,     \* replica ids of the partition (strings)
           Outsider,     \* an id that is not a replica (reports may come from anywhere)
           Dense,        \* TRUE: the next Raft index is epoch + 1 (bounded model);
                         \* FALSE: any larger index (recorded traces: the Raft log is shared)
-          KeepStatus, CountAll
+          KeepStatus, CountAll, RecheckAtApply
 
 VARIABLES exists, isr, leader, lepoch, pepoch, e0, fo, armed, good, obs, pend, taint
 pvars == <<exists, isr, leader, lepoch, pepoch, e0>>   \* replicated partition state
@@ -86,6 +91,9 @@ GoodAfterISR == IF leader' # leader \/ lepoch' # lepoch THEN {} ELSE good
 \* election (re)arms the timer, an election attempt stops it
 ArmedAfterEffect == obs'.err = "" /\ leader' = leader
 ArmedAfterReport(w, l, e) == IF Stale(l, e) THEN armed ELSE ArmedAfterEffect
+ArmedAfterApply(l, e) == IF Stale(l, e) /\ obs'.err = "stale" THEN armed ELSE ArmedAfterEffect
+\* a parked report took effect although the pair it named was stale
+TaintAfterApply(l, e) == taint \/ (Stale(l, e) /\ obs'.err # "stale")
 
 -----------------------------------------------------------------------------
 (* The actions as the code performs them *)
@@ -135,16 +143,23 @@ DoReportCheck(w, l, e) ==
        /\ obs' = [a |-> "ReportCheck", err |-> ""]
        /\ UNCHANGED <<exists, isr, leader, lepoch, pepoch, e0, fo, armed, good, taint>>
 
-\* ... and the second half, arbitrarily later, whatever happened in between.
-\* KNOWN FINDING: the pair is not checked again, so a report that named a leader
-\* or epoch which is stale by now still registers a witness and can trigger an
-\* election against the NEW leader (taint).
+\* ... and the second half, arbitrarily later, whatever happened in between:
+\* under metadataAPI.mu the pair is checked AGAIN (fix "a leader report that was
+\* overtaken by a failover is refused"; the code as shipped did not: a report
+\* naming a leader or epoch that was stale by now still registered a witness and
+\* could trigger an election against the NEW leader - taint), then the status is
+\* looked up / created and failoverStatus.report runs.
 \* (domain: the stream still exists)
 DoReportApply(i) ==
   /\ i \in 1..Len(pend) /\ exists
   /\ LET r == pend[i] IN
-     /\ ReportEffect(r.w, r.l, r.e, "ReportApply")
-     /\ taint' = (taint \/ Stale(r.l, r.e))
+     IF RecheckAtApply /\ Stale(r.l, r.e) THEN
+       /\ obs' = [a |-> "ReportApply", err |-> "stale"]
+       /\ UNCHANGED <<exists, isr, leader, lepoch, pepoch, e0, fo, armed, good>>
+       /\ taint' = TaintAfterApply(r.l, r.e)     \* unchanged
+     ELSE
+       /\ ReportEffect(r.w, r.l, r.e, "ReportApply")
+       /\ taint' = TaintAfterApply(r.l, r.e)
   /\ pend' = SubSeq(pend, 1, i - 1) \o SubSeq(pend, i + 1, Len(pend))
 
 \* the expiry timer fires: more than ReplicaMaxLeaderTimeout passed without a report
